@@ -77,6 +77,12 @@ def cases(rng, tier):
                 out.append(finish(build(rng, op, malformed), rng))
             except Exception as e:   # generator bug: never silently drop
                 raise
+    # corner arguments every run: the empty tuple of dims (nothing is reduced) on operands with several elements, both keepdims
+    for op in ('sum', 'mean'):
+        for keep in (0, 1):
+            sh = rng.pick([(2, 3), (3,), (2, 1, 2)])
+            corner = lambda r, o, m, sh=sh, keep=keep: ([(sh, gen_ops.vals(r, sh), True)], ['t:_', keep])
+            out.append(finish(build(rng, op, False, gen=corner), rng))
     return out
 
 
